@@ -24,7 +24,7 @@ theorem codegen_correct_cg (lv : Nat) (p : Program) (t : Tables) (hp : CgProg lv
       Equivalent (toSrc p).graph.lts (labLTS t.ops) e (labEntry t.ops j) := by
   have hlab : (labelIds t.ops.flatten).Nodup := (frontend_wfl' p t (frontGuard_of_cg lv p hp) hf).2.1
   obtain ⟨hm, hseq, hall⟩ := hp
-  let cx : Cx := ⟨t.ops, (toSrc p).graph.nodes.toList, hlab⟩
+  let cx : Cx := { rs := t.ops, N := (toSrc p).graph.nodes.toList, hlab := hlab }
   let fuel : Nat := 1
   have hmac : (toSrc p).macros = [] := by simp [toSrc, hm]
   -- the front end's tables
@@ -47,9 +47,9 @@ theorem codegen_correct_cg (lv : Nat) (p : Program) (t : Tables) (hp : CgProg lv
       have := (compileRoutines_cg cx fuel lv p.routines 0 _ _ _ _ hseq rfl rfl hall rfl rfl (wrapAssert_ok hr)).2 j' r' hj'
       simpa using this
   -- every body's source translation only adds nodes
-  have henv : PlainEnv ({ labels := [] } : Src.Env) := ⟨rfl, rfl⟩
+  have henv : EnvOK cx ({ labels := [] } : Src.Env) := ⟨rfl, rfl, fun n i h => by cases h⟩
   have hgrow : ∀ body ∈ p.routines.map (·.body), ∀ k b,
-      Grow b (Src.trStmts fuel [] { labels := [] } (toSrcStmts body) k b).1 := by
+      Grow cx.Z b (Src.trStmts fuel [] { labels := [] } (toSrcStmts body) k b).1 := by
     intro body hb k b
     obtain ⟨r', hr', rfl⟩ := List.mem_map.mp hb
     obtain ⟨j', hj', hget⟩ := List.getElem_of_mem hr'
@@ -73,7 +73,7 @@ theorem codegen_correct_cg (lv : Nat) (p : Program) (t : Tables) (hp : CgProg lv
     simp only [Src.Program.graph, hlabs, Src.allocLabels, List.foldl_nil, Src.B.push]
     rw [hr, hmac]
     rfl
-  obtain ⟨g1, _, paths⟩ := graph_fold fuel [] { labels := [] } 0 (p.routines.map (·.body)) hgrow (b1, [])
+  obtain ⟨g1, _, paths⟩ := graph_fold fuel [] { labels := [] } 0 cx.Z (p.routines.map (·.body)) hgrow (b1, [])
   obtain ⟨bj, hent, hfin⟩ := paths j r.body (by simp [hj])
   obtain ⟨its, lb, s1, ops, s2, hits, hl1, hc1, hrun, hshape⟩ := hruns j r hj
   have hgr : cgStmts lv r.body = true := hall r (List.mem_of_getElem? hj)
@@ -87,12 +87,12 @@ theorem codegen_correct_cg (lv : Nat) (p : Program) (t : Tables) (hp : CgProg lv
     rw [hg]; rfl
   have hN0 : cx.N[0]? = some (.halt evReturn) := by
     rw [hN]
-    obtain ⟨x, hx⟩ := g1
-    rw [hx]; rfl
-  have hag : AgreeOn cx.N bj (Src.trStmts fuel [] { labels := [] } (toSrcStmts r.body) 0 bj).1 := by
-    intro i _ hi
+    have := g1.get (i := 0) (Nat.zero_le _) (by simp [b1, tbl])
+    rw [this]; rfl
+  have hag : AgreeOn cx.N cx.Z bj (Src.trStmts fuel [] { labels := [] } (toSrcStmts r.body) 0 bj).1 := by
+    refine ⟨Nat.zero_le _, fun i _ hi => ?_⟩
     rw [hN]
-    exact hfin.get hi
+    exact hfin.get (Nat.zero_le _) hi
   have hplaced : Placed cx.rs j 0 ops := by
     rcases hshape with rfl | ⟨o, rfl⟩
     · exact ⟨[], [], by simpa using hits, rfl⟩
